@@ -167,7 +167,7 @@ def gen_mc(scen, outdir=GEN):
     lines.append(f"cScript == ({sc}) @@ [f \\in {allf} |-> <<>>]")
     lines.append(f"cMutexes == {tla_set(mutexes)}")
     lines.append(f"cMpscQs == {tla_set(mpscqs)}")
-    consts = {"PushToStoreTo": False, "StealOn": True, "BypassCap": 64}
+    consts = {"PushToStoreTo": True, "StealOn": True, "BypassCap": 64}
     consts.update(scen.get("consts", {}))
     extra = scen.get("tla_consts", {})  # name -> TLA expression text
     for k, v in extra.items():
